@@ -1,6 +1,7 @@
 import VirtioVerif.Model.Proto
 import VirtioVerif.Model.Layout
 import VirtioVerif.Model.Blk
+import VirtioVerif.Model.Net
 /-!
 Native line-protocol driver over all models: one request line in, one reply line out.
 `case …` lines reset per-case state and are echoed as `case`.
@@ -10,6 +11,7 @@ open VirtioVerif
 structure World where
   dummy : Unit := ()
   blk : Option Blk.State := none
+  net : Option Net.W := none
 
 def World.fresh : World := {}
 
@@ -18,6 +20,7 @@ def step (w : World) (line : String) : World × String :=
   | "case" :: _ => (World.fresh, "case")
   | "layout" :: op :: rest => (w, Layout.handle op (Proto.parseArgs rest))
   | "blk" :: op :: rest => let (s, o) := Blk.handle w.blk op (Proto.parseArgs rest); ({ w with blk := s }, o)
+  | "net" :: op :: rest => let (s, o) := Net.handle w.net op (Proto.parseArgs rest); ({ w with net := s }, o)
   | _ => (w, "bad-op")
 
 partial def loop (h : IO.FS.Stream) (out : IO.FS.Stream) (w : World) : IO Unit := do
